@@ -117,6 +117,16 @@ theorem C18_print_text_irrelevant (opts : Opts) (file : Option Path) (srcA srcB 
   rw [← C18_print_invisible id opts [] file srcA src' nodesA hA hsrc' hqA hfs hF,
       ← C18_print_invisible id opts [] file srcB src' nodesB hB (hsame ▸ hsrc') hqB hfs hF]
 
+/-- **only PRINT writes the log**: a program (and the files it can import) in which no plain PRINT line stands at a command position —
+    the rewriting leaves it as it is — compiles with an EMPTY print log: no other command, no block, no loop, no call, no import
+    ever adds an entry -/
+theorem C18_only_print_writes_the_log (opts : Opts) (fs : FS) (file : Option Path) (src : Source) (nodes : List Node)
+    (hsrc : prepare src = .ok nodes) (hfix : (simPrint id).code nodes = nodes)
+    (hq : allCmdsL printOk nodes = true) (hfs : FSOk printOk fs) (hF : S2.FRel (simPrint id) fs) :
+    compile opts fs file src = (compile opts fs file src).dropPrints := by
+  have := C18_print_invisible id opts fs file src src nodes hsrc (by rw [hfix]; exact hsrc) hq hfs hF
+  simpa using this
+
 /-- a concrete nested program -/
 def exampleProg : List Node := [.line ⟨"PRINT hello".toList, 1⟩, .line ⟨"IF TRUE".toList, 2⟩,
   .block [.line ⟨"print x".toList, 3⟩, .line ⟨"STRING".toList, 4⟩, .block [.line ⟨"PRINT kept".toList, 5⟩]]]
